@@ -10,7 +10,13 @@
   R30f  `async { B }.await` -> `|| -> _ { B }()`: a block awaited on the spot is an immediately invoked closure (`return` and `?` leave the block
         in both); this is the shape the sync code has and that rule R16 lifts into a function
   R30g  the type `BoxFuture<'a, T>` (a boxed in-flight future, only stored and polled by the hand-written stream state machine) becomes the opaque
-        type `PendingFuture` (prelude/asyncport.rs); `async_std::io::copy` is named `std::io::copy`
+        type `PendingFuture<T>` (prelude/asyncport.rs: ghost "which call is in flight"); `Box<(dyn X)>` -> `Box<dyn X>`; `async_std::io::copy`
+        is named `std::io::copy`
+  R30i  the hand-written stream state machine (`Stream::poll_next`): `Box::pin(async move { x.m().await })` -> `verif_future_m(x)` (a future that
+        will perform the call `x.m()` when it is polled to completion); `f.poll_unpin(cx)` -> `f.verif_poll(world)` (either Pending, and then
+        nothing has happened, or Ready with the outcome of the call under its proved contract); `s.poll_next_unpin(cx)` -> `verif_poll_stream(&mut s)`
+        (Pending, or Ready(next item)); the receiver `self: Pin<&mut Self>` -> `&mut self`, `self.get_mut()` -> `self`, the parameter
+        `cx: &mut Context<'_>` is dropped (wakers are scheduling, not behaviour)
   R30h  a `println!(..);` statement is dropped (the port's read_dir prints every entry to stdout; stdout is not part of any property)
   R30e  `let mut s = E; while let Some(x) = s.next() { B }` -> `for x in E { B }` when `s` occurs neither in B nor later in the enclosing
         block: this is the definition of `for` (repeated `next()` until `None`), and it lets the sync loop invariants speak about the port's loop
@@ -29,7 +35,7 @@ RENAME = {
 def erase(src):
     toks = lex(src)
     out = []
-    counts = {'R30a': 0, 'R30b': 0, 'R30c': 0, 'R30d': 0, 'R30e': 0, 'R30f': 0, 'R30g': 0, 'R30h': 0}
+    counts = {'R30a': 0, 'R30b': 0, 'R30c': 0, 'R30d': 0, 'R30e': 0, 'R30f': 0, 'R30g': 0, 'R30h': 0, 'R30i': 0}
     pos = 0
     i = 0
     n = len(toks)
@@ -49,6 +55,7 @@ def erase(src):
 
     from lexer import match_close
     call_at = set()
+    paren_close = set()
     while i < n:
         t = toks[i]
         if t.text == 'async' and i + 1 < n and toks[i + 1].text == '{':
@@ -89,27 +96,66 @@ def erase(src):
                 counts['R30h'] += 1
                 i = c + 2
                 continue
-        if t.text == 'BoxFuture' and i + 1 < n and toks[i + 1].text == '<':
-            depth = 0
-            j = i + 1
-            while j < n:
-                x = toks[j].text
-                if x == '<':
-                    depth += 1
-                elif x == '>':
-                    depth -= 1
-                elif x == '>>':
-                    depth -= 2
-                if depth <= 0:
-                    break
-                j += 1
+        if t.text == 'BoxFuture' and i + 3 < n and toks[i + 1].text == '<' and toks[i + 2].kind == 'lifetime' and toks[i + 3].text == ',':
+            # BoxFuture<'a, T> -> PendingFuture<T>: only the lifetime argument is dropped
             emit_gap(t.start)
-            out.append('PendingFuture' + ('>' if depth < 0 else ''))
-            dropped = src[t.start:toks[j].end]
-            out.append('\n' * dropped.count('\n'))
-            pos = toks[j].end
+            out.append('PendingFuture<')
+            pos = toks[i + 3].end
             counts['R30g'] += 1
-            i = j + 1
+            i += 4
+            continue
+        if t.text == '(' and i + 1 < n and toks[i + 1].text == 'dyn' and i >= 1 and toks[i - 1].text == '<':
+            c = match_close(toks, i)
+            emit_gap(t.start)
+            pos = t.end
+            paren_close.add(c)
+            counts['R30g'] += 1
+            i += 1
+            continue
+        if t.text == ')' and i in paren_close:
+            emit_gap(t.start)
+            pos = t.end
+            i += 1
+            continue
+        if t.text == 'Box' and i + 6 < n and [x.text for x in toks[i + 1:i + 7]] == ['::', 'pin', '(', 'async', 'move', '{']:
+            c = match_close(toks, i + 6)
+            inner = toks[i + 7:c]
+            texts = [x.text for x in inner]
+            if len(inner) == 7 and inner[0].kind == 'ident' and texts[1] == '.' and inner[2].kind == 'ident' and texts[3:] == ['(', ')', '.', 'await'] and toks[c + 1].text == ')':
+                emit_gap(t.start)
+                out.append('verif_future_%s(%s)' % (texts[2], texts[0]))
+                pos = toks[c + 1].end
+                counts['R30i'] += 1
+                i = c + 2
+                continue
+        if t.kind == 'ident' and t.text == 'poll_unpin' and i >= 2 and toks[i - 1].text == '.' and i + 3 < n and [x.text for x in toks[i + 1:i + 4]] == ['(', 'cx', ')']:
+            emit_gap(t.start)
+            out.append('verif_poll(world)')
+            pos = toks[i + 3].end
+            counts['R30i'] += 1
+            i += 4
+            continue
+        if t.text == 'self' and i + 8 < n and [x.text for x in toks[i + 1:i + 8]] == [':', 'Pin', '<', '&', 'mut', 'Self', '>']:
+            # `self: Pin<&mut Self>, cx: &mut Context<'_>` -> `&mut self`
+            j = i + 8
+            if [x.text for x in toks[j:j + 5]] == [',', 'cx', ':', '&', 'mut'] and toks[j + 5].text == 'Context':
+                k = j + 6
+                if toks[k].text == '<':
+                    while toks[k].text != '>':
+                        k += 1
+                    k += 1
+                emit_gap(t.start)
+                out.append('&mut self')
+                pos = toks[k - 1].end
+                counts['R30i'] += 1
+                i = k
+                continue
+        if t.text == 'self' and i + 4 < n and [x.text for x in toks[i + 1:i + 5]] == ['.', 'get_mut', '(', ')']:
+            emit_gap(t.start)
+            out.append('self')
+            pos = toks[i + 4].end
+            counts['R30i'] += 1
+            i += 5
             continue
         if t.text == 'async_std' and i + 4 < n and [x.text for x in toks[i + 1:i + 5]] == ['::', 'io', '::', 'copy']:
             emit_gap(t.start)
@@ -154,6 +200,14 @@ def erase(src):
         i += 1
     out.append(src[pos:])
     text = ''.join(out)
+    import re
+    text, k = re.subn(r'\b([A-Za-z_][A-Za-z0-9_]*(?:\.[A-Za-z_][A-Za-z0-9_]*)*)\.poll_next_unpin\(cx\)', r'verif_poll_stream(&mut \1)', text)
+    counts['R30i'] += k
+    if re.search(r'\blet\s+this\s*=\s*self\s*;', text):
+        # `let this = self.get_mut();` (now `let this = self;`): the alias is dropped and `this` reads `self`
+        text = re.sub(r'\blet\s+this\s*=\s*self\s*;', '', text)
+        text, k = re.subn(r'\bthis\b', 'self', text)
+        counts['R30i'] += k
     text, counts['R30e'] = while_let_to_for(text)
     return text, counts
 
